@@ -50,7 +50,11 @@ class PyFormatter(Formatter):
     @override(Formatter)
     def format_docstring(self, *comments: str) -> List[str]:
         strings = ['"""']
-        strings.extend([comment for comment in comments])
+        # Backslashes and quotes of the comment text must not act as escape
+        # sequences or close the docstring.
+        strings.extend(
+            [comment.replace("\\", "\\\\").replace('"', '\\"') for comment in comments]
+        )
         strings.append('"""')
         return strings
 
